@@ -36,7 +36,7 @@ func init() {
 				cfg.CookieDomains = []string{".example.com"}
 			case "two":
 				cfg.CookieDomains = []string{".example.com", ".app.example.com"}
-			case "backend_ok", "backend_fail":
+			case "backend_ok", "backend_fail", "backend_reset":
 				// a backend-logout URL is configured: the provider is told about the sign-out (and may answer 500) - the session ends all the same
 				cfg.BackendLogout = true
 			}
@@ -50,6 +50,9 @@ func init() {
 			defer w.close()
 			if vpS(cm, "domains") == "backend_fail" {
 				w.idp.logoutStatus = 500
+			}
+			if vpS(cm, "domains") == "backend_reset" {
+				w.idp.logoutStatus = -1 // the provider's logout endpoint drops the connection
 			}
 			pad := vpRandPad(1800)
 			nextPad := false
